@@ -2463,11 +2463,8 @@ bool Parser::parseInitializerListItem(InitializerSyntax*& init, InitializerListS
             return true;
 
         case SyntaxKind::CommaToken:
-            // A trailing comma belongs to the item before it; `{ , }' has none.
-            if (initList && peek(2).kind() == SyntaxKind::CloseBraceToken) {
-                initList->delimTkIdx_ = consume();
-                return true;
-            }
+            // A trailing comma was consumed as the delimiter of the item
+            // before it: this one, in `{ , }' or `{ 1, , }', has no item.
             diagReporter_.ExpectedFIRSTofExpression();
             return false;
 
